@@ -132,11 +132,16 @@ class DelayModel:
         if self.dist == "normal":
             s = default_rng(self.seed).normal(mu, sigma, n)
         elif self.dist == "poisson":
-            s = default_rng().poisson(mu, int(runtime / self.degree))
+            s = default_rng(self.seed).poisson(
+                mu, int(runtime / self.degree.value))
         else:
             s = default_rng().uniform()
 
         var = s[s > mu]
+        if len(var) == 0:
+            # No sample exceeds the mean (always the case for a zero
+            # runtime): there is no delay to add.
+            return mu
         rand_var = var[int(len(var)/2)]
         return rand_var
 
